@@ -56,7 +56,7 @@ Proof.
   apply Permutation_trans with (firstn store l5 ++ hget l5 store :: skipn (S store) l5); [|rewrite <- El5; exact P5].
   apply Permutation_app.
   - destruct (1 <? store)%nat; [apply IH|apply Permutation_refl].
-  - apply perm_skip. destruct (store * 2 <? size)%nat; [apply IH|apply Permutation_refl].
+  - apply perm_skip. destruct (store + 2 <? size)%nat; [apply IH|apply Permutation_refl].
 Qed.
 
 (* ------------------------------------------------------------------ the query as a whole *)
